@@ -122,8 +122,9 @@ def step (s : S) (ws : List String) : S × String :=
     | some n => ({ st := initState n }, "ok")  -- fresh Serial state too
     | none => (s, "bad-op")
   | ["writer", tabs, mode, mark, reg] =>
-    let st := spawnWriter P s.st (parseList tabs) (mode == "commit") (parseList mark) (parseList reg)
-    let (s', msg) := serSpawn s (parseList tabs) (mode == "commit")
+    -- (a "-anon" suffix: the transaction is opened through a handle without a name; no difference)
+    let st := spawnWriter P s.st (parseList tabs) (mode.startsWith "commit") (parseList mark) (parseList reg)
+    let (s', msg) := serSpawn s (parseList tabs) (mode.startsWith "commit")
     ({ s' with st }, s!"t{s.st.threads.length}{msg}")
   | ["register", "dup"] =>
     ({ serNoTxn s with st := spawnRegisterDup P s.st }, s!"t{s.st.threads.length}")
